@@ -610,6 +610,7 @@ def macroize(text, rng, n):
     rng.shuffle(names)
     lines = text.split("\n")
     hdr_end = next(i for i, l in enumerate(lines) if l.strip().startswith("}")) + 1
+    param_macro = {}        # attribute keyword -> name of the parameterised macro that writes it (one macro, used many times)
     for _ in range(n):
         if not names:
             break
@@ -618,13 +619,50 @@ def macroize(text, rng, n):
             break
         kind = rng.random()
         nm = names.pop()
-        if kind < 0.5:
+        if kind < 0.2 and names:
+            # a macro whose body calls ONE other macro several times: a balanced run of lines with two or more attribute lines
+            # of the same keyword, each written as a call of the parameterised macro for that keyword
+            attr = re.compile(r"^(\s*)(effort|allocate|priority)(\s+)(\S+)\s*$")
+            done = False
+            for _try in range(40):
+                i = rng.randrange(hdr_end, len(lines))
+                j = rng.randint(i + 2, min(len(lines), i + 12)) if i + 2 <= len(lines) else len(lines)
+                piece_lines = lines[i:j]
+                piece = "\n".join(piece_lines)
+                if not (piece.strip() and _balanced(_nocomment(piece)) and not re.search(r"[\[\]]|/\*|\*/|\$(?!\{)", piece)):
+                    continue
+                by_kw = {}
+                for off, l in enumerate(piece_lines):
+                    m = attr.match(l)
+                    if m:
+                        by_kw.setdefault(m.group(2), []).append((off, m))
+                kws = [kw for kw, v in by_kw.items() if len(v) >= 2]
+                if not kws:
+                    continue
+                kw = rng.choice(kws)
+                if kw in param_macro:
+                    inner = param_macro[kw]
+                else:
+                    inner = names.pop()
+                    param_macro[kw] = inner
+                    defs.append(f"macro {inner} [{kw} $1]")
+                for off, m in by_kw[kw]:
+                    piece_lines[off] = m.group(1) + "${" + inner + " " + m.group(4) + "}"
+                defs.append(f"macro {nm} [\n" + "\n".join(piece_lines) + "\n]")
+                lines[i:j] = ["${" + nm + "}"]
+                done = True
+                break
+            if not done:
+                names.append(nm)
+        elif kind < 0.5:
             # a run of whole lines with balanced braces
             for _try in range(20):
                 i = rng.randrange(hdr_end, len(lines))
                 j = rng.randint(i + 1, min(len(lines), i + 6))
                 piece = "\n".join(lines[i:j])
-                if piece.strip() and _balanced(_nocomment(piece)) and not re.search(r"[\[\]$]|/\*|\*/", piece):
+                # (calls of macros defined so far may lie inside the piece: the new macro then uses other macros, possibly
+                # the same one several times)
+                if piece.strip() and _balanced(_nocomment(piece)) and not re.search(r"[\[\]]|/\*|\*/|\$(?!\{)", piece):
                     defs.append(f"macro {nm} [\n{piece}\n]")
                     lines[i:j] = ["${" + nm + "}"]
                     break
@@ -634,7 +672,12 @@ def macroize(text, rng, n):
                      for m in [re.match(r"^(\s*)(effort|allocate|priority)(\s+)(\S+)\s*$", l)] if m]
             if cands:
                 i, m = rng.choice(cands)
-                defs.append(f"macro {nm} [{m.group(2)} $1]")
+                if m.group(2) in param_macro:
+                    names.append(nm)
+                    nm = param_macro[m.group(2)]
+                else:
+                    param_macro[m.group(2)] = nm
+                    defs.append(f"macro {nm} [{m.group(2)} $1]")
                 lines[i] = m.group(1) + "${" + nm + " " + m.group(4) + "}"
         else:
             # nested: a macro whose body is a call of a new inner macro holding one attribute line
